@@ -22,6 +22,18 @@ pub struct Case {
     /// for the new version those entries are deleted.
     #[serde(default)]
     pub exclude2: Option<u16>,
+    /// `BackupOptions::owner` of both backups (off in a sixth of the cases).
+    #[serde(default = "yes")]
+    pub record_owner: bool,
+    /// After the edits the i-th remaining entry (with what is below it) is replaced by
+    /// something that is neither file, directory nor symlink (a fifo or a character device):
+    /// for the comparison the path is gone.
+    #[serde(default)]
+    pub special_at: Option<u16>,
+}
+
+fn yes() -> bool {
+    true
 }
 
 fn cfg() -> TreeCfg {
@@ -39,8 +51,10 @@ fn strategy(_tier: Tier) -> BoxedStrategy<Case> {
         tree::opts_strategy(),
         prop::collection::vec(edit_strategy(cfg()), 0..8),
         prop::option::weighted(0.3, any::<u16>()),
+        prop::bool::weighted(0.83),
+        prop::option::weighted(0.2, any::<u16>()),
     )
-        .prop_map(|((opts, tree), opts2, edits, exclude2)| Case { opts, opts2, tree, edits, exclude2 })
+        .prop_map(|((opts, tree), opts2, edits, exclude2, record_owner, special_at)| Case { opts, opts2, tree, edits, exclude2, record_owner, special_at })
         .boxed()
 }
 
@@ -96,23 +110,57 @@ fn run(case: &Case, cx: &mut Cx) -> CaseResult {
     tree::materialise(t0, &src);
     let c = ops::create_archive(&arch);
     ensure!(c.clean(), "C18/create", "{}", c.describe());
+    struct OwnerOn;
+    impl Drop for OwnerOn {
+        fn drop(&mut self) {
+            ops::set_record_owner(true);
+        }
+    }
+    let _owner_on = OwnerOn;
+    ops::set_record_owner(case.record_owner);
     let b = ops::backup(&arch, &None, &src, case.opts, &[]);
     ensure!(!ops::backup_reported_error(&b), "C18/backup-error", "{}", b.describe());
 
     // Comparing a version with the very tree it was made from reports no change.
-    let d = ops::diff(&arch, &Sel::Band(0), &src, false);
-    ensure!(d.clean(), "C18/diff-error", "{}", d.describe());
-    let d = d.result.unwrap();
-    ensure!(d.is_empty(), "C18/diff-of-unmodified-tree-not-empty", "diff against the unmodified source reported {d:?}");
+    // (Not asked of a version made with `owner: false`, a library-only setting: it holds no
+    // owners, the tree has them, and diff reports that difference for every entry. Those
+    // cases check the backup's change reports only, where neither side has owners.)
+    if case.record_owner {
+        let d = ops::diff(&arch, &Sel::Band(0), &src, false);
+        ensure!(d.clean(), "C18/diff-error", "{}", d.describe());
+        let d = d.result.unwrap();
+        ensure!(d.is_empty(), "C18/diff-of-unmodified-tree-not-empty", "diff against the unmodified source reported {d:?}");
+    }
 
     let mut t1 = t0.clone();
     for e in &case.edits {
         apply_edit(&mut t1, e);
     }
+    // a fifo or a device where a stored entry was: the entry is gone
+    let special: Option<String> = case.special_at.and_then(|i| {
+        let cands: Vec<String> = t1.0.keys().filter(|p| p.as_str() != "/").cloned().collect();
+        if cands.is_empty() { None } else { Some(cands[(i as usize * cands.len()) >> 16].clone()) }
+    });
+    if let Some(p) = &special {
+        t1.remove_subtree(p);
+    }
     t1.check_invariant();
     tree::rematerialise(t0, &t1, &src);
+    if let Some(p) = &special {
+        let fp = tree::fs_path(&src, p);
+        let c = std::ffi::CString::new(std::os::unix::ffi::OsStrExt::as_bytes(fp.as_os_str())).unwrap();
+        let rc = if case.special_at.unwrap_or(0) % 2 == 0 {
+            unsafe { libc::mkfifo(c.as_ptr(), 0o644) }
+        } else {
+            unsafe { libc::mknod(c.as_ptr(), libc::S_IFCHR | 0o600, libc::makedev(1, 3)) }
+        };
+        assert_eq!(rc, 0, "mkfifo/mknod {fp:?}: {}", std::io::Error::last_os_error());
+    }
 
     for include_unchanged in [false, true] {
+        if !case.record_owner {
+            break;
+        }
         let d = ops::diff(&arch, &Sel::Band(0), &src, include_unchanged);
         ensure!(d.clean(), "C18/diff-error", "{}", d.describe());
         let got = d.result.unwrap();
@@ -171,7 +219,13 @@ fn run(case: &Case, cx: &mut Cx) -> CaseResult {
         let want = match t0.0.get(p) {
             None => '+',
             Some(n0) => {
-                if changed(n0, n1) { '*' } else { '.' }
+                let mut n0 = n0.clone();
+                if !case.record_owner {
+                    // owners are not part of either version
+                    n0.meta.uid = n1.meta.uid;
+                    n0.meta.gid = n1.meta.gid;
+                }
+                if changed(&n0, n1) { '*' } else { '.' }
             }
         };
         let recs: Vec<&ChangeRec> = changes.iter().filter(|c| c.apath == *p).collect();
@@ -201,6 +255,8 @@ fn run(case: &Case, cx: &mut Cx) -> CaseResult {
     cx.label_if(unchanged_file, "unchanged-file");
     cx.label_if(case.edits.is_empty(), "no-edits");
     cx.label_if(excluded_root.is_some(), "second-backup-excludes-stored-entries");
+    cx.label_if(!case.record_owner, "owners-not-recorded");
+    cx.label_if(special.is_some(), "stored-entry-replaced-by-fifo-or-device");
     cx.nontrivial = has('+') && has('-') && has('*') && unchanged_file;
     cx.add_evals(4);
     Ok(())
@@ -237,7 +293,7 @@ fn enumerate(_tier: Tier, idx: u32, of: u32, cx: &mut Cx) -> CaseResult {
     std::fs::create_dir_all(&sub).unwrap();
     let mut cx2 = crate::engine::sub_cx(cx, sub.clone());
     crate::engine::heartbeat();
-    run(&Case { opts, opts2: ops::Opts { hunk: 500, ..opts }, tree, edits, exclude2: None }, &mut cx2).map_err(|mut f| {
+    run(&Case { opts, opts2: ops::Opts { hunk: 500, ..opts }, tree, edits, exclude2: None, record_owner: true, special_at: None }, &mut cx2).map_err(|mut f| {
         f.signature = format!("{}/probe-many-hunks", f.signature);
         f
     })?;
